@@ -524,7 +524,7 @@ func (h *harness) proveIdle(after int64) (string, *liveRound) {
 		}
 	}
 	lo := h.reserve()
-	d := dumpAll()
+	d := dumpAll("broadcastHandler")
 	live := roundGoroutines(d, hg)
 	h.mu.Lock()
 	defer h.mu.Unlock()
@@ -950,9 +950,9 @@ func ResolvePending(results []*Result, watchdog, gap time.Duration) {
 	if len(rem) == 0 {
 		return
 	}
-	d1 := dumpAll()
+	d1 := dumpAll("pushtx.")
 	time.Sleep(gap)
-	d2 := dumpAll()
+	d2 := dumpAll("pushtx.")
 	method := map[string]string{
 		"markasconfirmed": "pushtx.(*Broadcaster).MarkAsConfirmed",
 		"broadcast":       "pushtx.(*Broadcaster).Broadcast",
